@@ -1,6 +1,6 @@
 """The registered checks.  One function per property; each: rebuild, model check, generate, drive, validate (TLC), triage, evidence."""
-import json, os, random, sys, time, collections
-import vlib, formats, scen, gen_core, gen_env, gen_c03
+import json, os, random, sys, time, collections, struct
+import vlib, formats, scen, gen_core, gen_env, gen_c03, gen_conv
 from vlib import Infra, log
 
 RATE = 8000
@@ -637,6 +637,119 @@ def c12(tier):
                       t0)
 
 
+def _conv_mc():
+    cfgname = os.path.join(vlib.SPEC, "MC_conv.cfg")
+    return vlib.model_check("MC_conv.tla", "MC_conv.cfg", workers=1, timeout=900)
+
+
+def c20(tier):
+    t0 = time.time()
+    rng = random.Random(vlib.SEED)
+    S = scen.Script()
+    G = gen_conv
+    # G.711: all 256 codes decoded through the four caller types; all 65536 shorts (and their int / float / double images) encoded
+    allcodes = bytes(range(256))
+    for sub in (0x10, 0x11):
+        for T in "sifd":
+            G.dec(S, sub, 0, T, allcodes)
+            G.dec(S, sub, 0, T, allcodes, norm=0)
+        for lo in range(-32768, 32768, 8192):
+            sh = list(range(lo, lo + 8192))
+            G.enc(S, sub, 0, "s", G.val_tokens("s", sh))
+            G.enc(S, sub, 0, "i", G.val_tokens("i", [v * 65536 + ((v * 7919) % 65536 if tier == "thorough" else 0) for v in sh]))
+            G.enc(S, sub, 0, "d", G.val_tokens("d", [v / 32768.0 for v in sh]))
+            G.enc(S, sub, 0, "f", G.val_tokens("f", [v / 32768.0 for v in sh]))
+    # portable IEEE serialisers (SFC_TEST_IEEE_FLOAT_REPLACE): stratified over sign x every exponent x mantissa classes
+    def fpats(n):
+        out = []
+        for sgn in (0, 1):
+            for ex in range(1, 255):          # finite normal values
+                for man in [0, 1, 0x7FFFFF, 0x400000] + [rng.randrange(1 << 23) for _ in range(n)]:
+                    out.append((sgn << 31) | (ex << 23) | man)
+        return out
+    pats = fpats(2 if tier == "quick" else 40)
+    sg = lambda u: u - (1 << 32) if u >= (1 << 31) else u
+    for big in (0, 1):
+        vals = [str(sg(p)) for p in pats]
+        for i in range(0, len(vals), 8192):
+            G.enc(S, 6, big, "f", vals[i:i + 8192], ieee=1, fmode=0)
+            data = b"".join(struct.pack(">I" if big else "<I", p) for p in pats[i:i + 8192])
+            G.dec(S, 6, big, "f", data, ieee=1, fmode=0)
+    def dpats(n):
+        out = []
+        for sgn in (0, 1):
+            for ex in list(range(1, 2047, 1 if tier == "thorough" else 16)) + [1, 2, 1022, 1023, 1024, 2046]:
+                for man in [0, 1, (1 << 52) - 1] + [rng.randrange(1 << 52) for _ in range(n)]:
+                    out.append((sgn << 63) | (ex << 52) | man)
+        return out
+    dp = dpats(1 if tier == "quick" else 6)
+    for big in (0, 1):
+        toks = ["%d:%d" % (sg(p >> 32), p & 0xFFFFFFFF) for p in dp]
+        for i in range(0, len(toks), 4096):
+            G.enc(S, 7, big, "d", toks[i:i + 4096], ieee=1, fmode=0)
+            data = b"".join(struct.pack(">Q" if big else "<Q", p) for p in dp[i:i + 4096])
+            G.dec(S, 7, big, "d", data, ieee=1, fmode=0)
+    # byte order helpers: the same integer samples in little and big endian files (BytesOf with big = TRUE / FALSE)
+    for sub in (2, 3, 4):
+        vals = [rng.randrange(-2 ** 31, 2 ** 31) for _ in range(2000)] + [0, -1, 1, 2 ** 31 - 1, -2 ** 31]
+        for big in (0, 1):
+            G.enc(S, sub, big, "i", G.val_tokens("i", vals))
+    mcs = [_conv_mc()]
+    return core_check("C20", tier, mcs, S.lines, "DESIGN.md section 6 C20",
+                      "G.711: all 256 codes of both laws decoded through short/int/float/double (normalisation on and off) and all 65536 short inputs, their int images and their float/double images encoded, compared with the TLA+ definitions SfG711 (from the Recommendation); portable IEEE-754 float/double serialisers forced with SFC_TEST_IEEE_FLOAT_REPLACE: %d float and %d double bit patterns (both signs, every float exponent, mantissa classes) written and read back, little and big endian, bytes vs bit pattern; byte order of 16/24/32 bit integers (BytesOf)" % (len(pats), len(dp)),
+                      t0, module="TraceConv.tla", cfg="TraceConv.cfg", extra_cov={"exhaustive_g711": True, "adpcm_reference_decoders": "not implemented in this version, see DESIGN.md section 8"})
+
+
+def c02(tier):
+    t0 = time.time()
+    rng = random.Random(vlib.SEED)
+    S = scen.Script()
+    G = gen_conv
+    shorts = list(range(-32768, 32768))
+    ints = [v * 65536 for v in range(-32768, 32768, 5)] + [rng.randrange(-2 ** 31, 2 ** 31) for _ in range(4000)] + [2 ** 31 - 1, -2 ** 31, 255, 256, -255, -256, 65535, 65536, -65536, -65537]
+    pcm = [(1, 1), (5, 1), (2, 2), (3, 3), (4, 4)]
+    for sub, nb in pcm:
+        for big in ((0, 1) if nb > 1 else (0,)):
+            # integer writes: every short, many ints
+            for i in range(0, len(shorts), 16384):
+                G.enc(S, sub, big, "s", G.val_tokens("s", shorts[i:i + 16384]))
+            G.enc(S, sub, big, "i", G.val_tokens("i", ints))
+            # reads of every stored code (8 / 16 bit exhaustively, wider: boundary + random codes) through the four types
+            if nb == 1:
+                data = bytes(range(256))
+            elif nb == 2:
+                data = b"".join(struct.pack(">h" if big else "<h", v) for v in range(-32768, 32768, 1 if tier == "thorough" else 3))
+            else:
+                codes = [0, 1, -1, 2 ** (8 * nb - 1) - 1, -2 ** (8 * nb - 1), 255, 256, -256, 65535, 65536, 2 ** 24 + 1 if nb == 4 else 7, -(2 ** 24) - 1 if nb == 4 else -7] + [rng.randrange(-2 ** (8 * nb - 1), 2 ** (8 * nb - 1)) for _ in range(3000)]
+                data = b"".join((c & (2 ** (8 * nb) - 1)).to_bytes(nb, "big" if big else "little") for c in codes)
+            for T in "sifd":
+                for i in range(0, len(data), 8192 * nb):
+                    G.dec(S, sub, big, T, data[i:i + 8192 * nb])
+                    if T in "fd":
+                        G.dec(S, sub, big, T, data[i:i + 8192 * nb], norm=0)
+    # float / double writes into 8 and 16 bit PCM: every point of the target grid j / 2^(w-1), normalisation on; clipping on and off
+    for sub, w in ((1, 8), (5, 8), (2, 16)):
+        js = list(range(-2 ** (w - 1), 2 ** (w - 1) + 1)) if w == 8 else list(range(-32768, 32769, 1 if tier == "thorough" else 3))
+        for T in "fd":
+            xs = [j / float(2 ** (w - 1)) for j in js if -2 ** (w - 1) < j < 2 ** (w - 1)]
+            for i in range(0, len(xs), 8192):
+                G.enc(S, sub, 0, T, G.val_tokens(T, xs[i:i + 8192]))
+            # clipping: out of range input saturates (incl. +-1.0, +-1.5, +-2.0)
+            xc = [j / float(2 ** (w - 1)) for j in js] + [1.5, -1.5, 2.0, -2.0]
+            for i in range(0, len(xc), 8192):
+                G.enc(S, sub, 0, T, G.val_tokens(T, xc[i:i + 8192]), clip=1)
+        # normalisation off: integers pass through unscaled (nearest integer)
+        G.enc(S, sub, 0, "d", G.val_tokens("d", [float(v) for v in range(-2 ** (w - 1), 2 ** (w - 1), 1 if w == 8 else 97)] + [0.5, 1.5, 2.5, -0.5, -1.5, 100.25, -100.75]), norm=0)
+    # wider targets: saturation with clipping on
+    for sub, w in ((3, 24), (4, 32)):
+        for T in "fd":
+            G.enc(S, sub, 0, T, G.val_tokens(T, [1.0, -1.0, 1.5, -1.5, 2.0, -2.0, 0.0, 0.5, -0.5, 0.25]), clip=1)
+    mcs = [_conv_mc()]
+    return core_check("C02", tier, mcs, S.lines, "DESIGN.md section 6 C02",
+                      "headerless files of PCM_S8, PCM_U8, PCM_16, PCM_24, PCM_32 (little and big endian): all 65536 short inputs and ~30000 int inputs written, file bytes compared with CodeOfInt/BytesOf; every 8 and 16 bit stored code (boundary + 3000 random codes for 24/32 bit) read through short/int/float/double with normalisation on and off (exact dyadic comparison, float rounding of 32 bit codes modelled); float and double writes of every point of the 8 and 16 bit target grids (nearest integer to x*(2^(w-1)-1), float product rounded to 24 bits = D2), clipping on: saturation incl. +-1.0, +-1.5, +-2.0 for 8/16/24/32 bit; normalisation off: unscaled nearest integer",
+                      t0, module="TraceConv.tla", cfg="TraceConv.cfg")
+
+
 CMD_NAMES = ["GET_LIB_VERSION", "GET_LOG_INFO", "GET_CURRENT_SF_INFO", "GET_NORM_DOUBLE", "GET_NORM_FLOAT", "SET_NORM_DOUBLE", "SET_NORM_FLOAT",
              "SET_SCALE_FLOAT_INT_READ", "SET_SCALE_INT_FLOAT_WRITE", "GET_SIMPLE_FORMAT_COUNT", "GET_SIMPLE_FORMAT", "GET_FORMAT_INFO",
              "GET_FORMAT_MAJOR_COUNT", "GET_FORMAT_MAJOR", "GET_FORMAT_SUBTYPE_COUNT", "GET_FORMAT_SUBTYPE", "CALC_SIGNAL_MAX", "CALC_NORM_SIGNAL_MAX",
@@ -741,7 +854,7 @@ def c17(tier):
                        assumptions=["an access outside the block is observed as a page fault (PROT_NONE fence) or by ASan", "the hook snapshot covers the handle's position, settings and metadata bookkeeping"])
 
 
-REGISTRY = {"C01": c01, "C07": c07, "C15": c15, "C10": c10, "C13": c13, "C03": c03, "C18": c18, "C12": c12, "C17": c17, "C11": c11, "C19": c19, "C14": c14, "C16": c16, "C04": c04, "C05": c05, "C06": c06, "C08": c08, "C09": c09}
+REGISTRY = {"C01": c01, "C07": c07, "C15": c15, "C10": c10, "C13": c13, "C03": c03, "C18": c18, "C12": c12, "C17": c17, "C20": c20, "C02": c02, "C11": c11, "C19": c19, "C14": c14, "C16": c16, "C04": c04, "C05": c05, "C06": c06, "C08": c08, "C09": c09}
 
 
 def replay(prop, path):
